@@ -343,8 +343,8 @@ theorem C02_minter_balance_unchanged_partial (w w' : World) (sender : Addr) (isA
   simp only [hs, if_false, if_true, hin, hflow d] at hl
   omega
 
-/-- COMPATIBILITY ALIAS, same statement as `C02_minter_balance_unchanged_partial` (hypothesis `hnd` included): kept only because
-`Props/CompositeVending.lean` (not a C02 file) refers to this name; to be deleted once that file uses `…_partial`. -/
+/-- alias of `C02_minter_balance_unchanged_partial` (kept because other modules refer to it) — same statement, hypothesis
+`hnd` (no token-merge deposit with funds) included; NOT the unrestricted clause. -/
 theorem C02_minter_balance_unchanged (w w' : World) (sender : Addr) (isAdmin : Bool) (funds : List Coin) (allowed : Bool)
     (h : mint w sender isAdmin funds allowed = .ok w')
     (hnd : ¬(w.v.family = .tokenMerge ∧ isAdmin = false) ∨ funds = [])
@@ -682,10 +682,15 @@ theorem away_step (w : World) (op : Op) (hop : OpAway w.m.addr w.v op) (hrec : w
         · cases hstep; rfl
         · cases hstep
 
-/-- "the minter contract's own balance is unchanged" after ANY history (token-merge deposits carrying funds excluded by
-`OpAway`, see `C02_minter_balance_unchanged_partial`): whatever sequence of mints (with any funds, accepted or not), price / discount / whitelist / fee-parameter updates and clock steps, the minter holds in every denom
-exactly what it held at the start — nothing is ever stranded in it -/
-theorem C02_history_minter_never_holds (w : World) (ops : List Op)
+/-- "the minter contract's own balance is unchanged" over histories — PARTIAL.  The full clause would quantify over ALL
+operation lists; it is FALSE for token-merge `ReceiveNft` deposits that carry funds (`C02_merge_deposit_funds_counterexample`).
+Proved: over any history in which every operation is `OpAway` — token-merge deposits carry no funds, the minter is never
+the sender of a mint, never a funding target, and never made the factory's developer address by a parameter update — and
+in which the minter is not one of the configured payees at the start (`hrec`: the two DAOs, the fair-burn pool, the
+developer, the seller = payment address / admin are all ≠ minter), whatever sequence of mints (with any funds, accepted or
+not), price / discount / whitelist / fee-parameter updates and clock steps, the minter holds in every denom exactly what it
+held at the start. -/
+theorem C02_history_minter_never_holds_partial (w : World) (ops : List Op)
     (hrec : w.m.addr ∉ recipients w.v w.f w.m) (hops : ∀ op ∈ ops, OpAway w.m.addr w.v op) (d : Denom) :
     (run w ops).bank.bal w.m.addr d = w.bank.bal w.m.addr d := by
   unfold run
@@ -700,6 +705,12 @@ theorem C02_history_minter_never_holds (w : World) (ops : List Op)
       exact hops o (List.mem_cons_of_mem _ ho))
     rw [hma] at this
     rw [this, hbal d]
+
+/-- alias of `C02_history_minter_never_holds_partial` (kept because other modules refer to it) -/
+theorem C02_history_minter_never_holds (w : World) (ops : List Op)
+    (hrec : w.m.addr ∉ recipients w.v w.f w.m) (hops : ∀ op ∈ ops, OpAway w.m.addr w.v op) (d : Denom) :
+    (run w ops).bank.bal w.m.addr d = w.bank.bal w.m.addr d :=
+  C02_history_minter_never_holds_partial w ops hrec hops d
 
 /-! ## Staged (tiered) whitelists, whitelist-side edits, other messages — `Model/MintPayStaged.lean`
 
@@ -825,8 +836,11 @@ theorem C02_staged_exact_payment (s s' : SWorld) (who : Addr) (funds : List Coin
       rw [C02_price_no_stage s hn] at hsel
       cases hsel; rfl
 
-/-- a whitelist-side edit takes effect on the very next mint: after the whitelist admin replaced the attached
-whitelist's table by `sc'`, the price in force is read off `sc'` (no stale copy anywhere) -/
+/-- a whitelist-side edit takes effect on the very next mint — RESTATES THE MODEL'S DEFINITION: the `.wlEdit` branch of
+`sstep` stores the witnessed table `sc'`, and this theorem only unfolds that (the stored table of the attached whitelist is
+`sc'`, the world is untouched); together with `SWorld.refresh` (the table is re-read before every op BY CONSTRUCTION) the
+next price is read off `sc'`.  That the real minters re-query the whitelist's `Config{}` on every mint and keep no stale
+copy is a modelling decision validated by the harness only (`edit-between` scenarios, mutant m9). -/
 theorem C02_wl_edit_takes_effect (s : SWorld) (id : Nat) (sc' : Sched) (hatt : s.att = some id) :
     (sstep' s (.wlEdit id sc' true)).sched = some sc' ∧ (sstep' s (.wlEdit id sc' true)).w = s.w := by
   simp [sstep', sstep, SWorld.sched, hatt, lookupWl, List.find?]
@@ -956,10 +970,14 @@ theorem saway_step (s : SWorld) (op : SOp) (hop : SOpAway s.w.m.addr s.w.v op)
             simp only [hsm, if_false, hin] at l
             simpa using l
 
-/-- "the minter contract's own balance is unchanged" after ANY staged history: mints under single-stage or tiered
-whitelists at any instants, whitelist swaps and whitelist-admin edits in between, and ANY other message whose observed
-bank effect does not name the minter (the model rejects an `ext` witness that does) -/
-theorem C02_staged_history_minter_never_holds (s : SWorld) (ops : List SOp)
+/-- "the minter contract's own balance is unchanged" over staged histories — PARTIAL, same restriction as
+`C02_history_minter_never_holds_partial`: every base operation must be `OpAway` (`SOpAway`: token-merge deposits carry no
+funds — the unrestricted clause is false, `C02_merge_deposit_funds_counterexample` —, the minter is never mint sender,
+funding target or newly configured developer) and the minter is not a configured payee at the start (`hrec`).  Under
+that restriction: mints under single-stage or tiered whitelists at any instants, whitelist swaps and whitelist-admin edits
+in between, and ANY other message whose observed bank effect does not name the minter (the model rejects an `ext` witness
+that does) leave the minter's balance in every denom as it was. -/
+theorem C02_staged_history_minter_never_holds_partial (s : SWorld) (ops : List SOp)
     (hrec : s.w.m.addr ∉ recipients s.w.v s.w.f s.w.m) (hops : ∀ op ∈ ops, SOpAway s.w.m.addr s.w.v op) (d : Denom) :
     (srun s ops).w.bank.bal s.w.m.addr d = s.w.bank.bal s.w.m.addr d := by
   unfold srun
@@ -974,6 +992,12 @@ theorem C02_staged_history_minter_never_holds (s : SWorld) (ops : List SOp)
       exact hops o (List.mem_cons_of_mem _ ho))
     rw [hma] at this
     rw [this, hbal d]
+
+/-- alias of `C02_staged_history_minter_never_holds_partial` (kept because other modules refer to it) -/
+theorem C02_staged_history_minter_never_holds (s : SWorld) (ops : List SOp)
+    (hrec : s.w.m.addr ∉ recipients s.w.v s.w.f s.w.m) (hops : ∀ op ∈ ops, SOpAway s.w.m.addr s.w.v op) (d : Denom) :
+    (srun s ops).w.bank.bal s.w.m.addr d = s.w.bank.bal s.w.m.addr d :=
+  C02_staged_history_minter_never_holds_partial s ops hrec hops d
 
 /-- an `ext` operation (any other message) whose witness pays the minter, or whose caller is the minter, is REJECTED by
 the model — so such an observation on the real contracts is a model / implementation disagreement, never absorbed -/
